@@ -493,7 +493,7 @@ async fn run_unawaited(h: &History, concurrency: Option<usize>) -> Value {
     }
   }
   // is the server still alive?  (a deadlocked server never answers)
-  let alive = matches!(tokio::time::timeout(Duration::from_secs(3), c.barrier()).await, Ok(true));
+  let alive = matches!(tokio::time::timeout(Duration::from_secs(20), c.barrier()).await, Ok(true));
   server.abort();
   let pubs: Vec<Value> = c
     .pubs
@@ -686,7 +686,7 @@ fn run_unawaited_proc(project: &Path, h: &History) -> Value {
       Err(_) => break,
     }
   }
-  let alive = c.barrier(Duration::from_secs(3)) == Some(true);
+  let alive = c.barrier(Duration::from_secs(20)) == Some(true);
   let _ = c.child.kill();
   let _ = c.child.wait();
   let pubs: Vec<Value> = c
